@@ -79,27 +79,30 @@ STEP_ASSUME = ("pre-state: fully symbolic 12 bitboards + ep + rights under RepIn
                "transient states inside legality filtering are covered); counters below 255")
 
 for kind in ["std", "promo", "ep", "oo", "ooo"]:
+    # est_s also orders the replay attempts: castle / en-passant / promotion counterexamples have much smaller traces than
+    # standard-move ones (Kani's playback of a c04_undo_std_* trace was seen at 16 GB)
+    KEST = {"std": 200, "promo": 120, "ep": 60, "oo": 50, "ooo": 50}[kind]
     for col, cname in [("w", "White"), ("b", "Black")]:
         quick = "quick" if kind in ("std", "oo", "ooo", "ep") else "thorough"
         add(f"c03_apply_{kind}_{col}", ["C03"], "quick",
             f"apply of a {KIND_NAMES[kind]} by {cname}: Ok, post-state == rules' successor (12 bitboards, ep, rights), turn unchanged, get() agrees",
-            APPLY_FNS[kind] + BOARD_FNS, STEP_ASSUME, est_s=80)
+            APPLY_FNS[kind] + BOARD_FNS, STEP_ASSUME, est_s=KEST)
         add(f"c04_undo_{kind}_{col}", ["C04"], "quick",
             f"apply;undo of a {KIND_NAMES[kind]} by {cname}: every raw field, stack tops, depths (+1 then -1), prefixes, counters, repetition bookkeeping restored",
-            APPLY_FNS[kind] + BOARD_FNS, STEP_ASSUME, est_s=120)
+            APPLY_FNS[kind] + BOARD_FNS, STEP_ASSUME, est_s=KEST + 20)
         add(f"c12_inv_{kind}_{col}", ["C12"], "quick",
             f"RepInv(pre) and Legalish {KIND_NAMES[kind]} by {cname} => RepInv(post), summaries agree, rights only shrink",
-            APPLY_FNS[kind] + BOARD_FNS, STEP_ASSUME, est_s=100)
+            APPLY_FNS[kind] + BOARD_FNS, STEP_ASSUME, est_s=KEST + 10)
         add(f"c16_step_{kind}_{col}", ["C16"], "quick",
             f"counters across a {KIND_NAMES[kind]} by {cname}: half' = 0 on capture/pawn move else half+1; full' = full+1; undo restores; no overflow (Kani arithmetic checks)",
             APPLY_FNS[kind] + BOARD_FNS,
             STEP_ASSUME.replace("counters below 255", "move counter anywhere in 0..=100000 (as far as the field's type holds it), half-move clock <= 200"),
-            est_s=80)
+            est_s=KEST)
         add(f"hmove_{kind}_{col}", ["C05", "C04", "C02"], "quick",
             f"key toggles over apply and apply;undo of a {KIND_NAMES[kind]} by {cname}: for an arbitrary feature id, parity of its toggles == (holds before) XOR (holds after); even over apply;undo; key field written only via the toggles",
             APPLY_FNS[kind] + BOARD_FNS, STEP_ASSUME,
             stubs=["PositionInfo::update_zobrist_hash_toggle_piece/_en_passant_target/_castling_rights -> ghost recorders (log the feature id instead of XORing); discharged by h2_toggles_exact"],
-            unwind=30, est_s=120)
+            unwind=30, est_s=KEST + 30)
 
 add("witness_step_std_w", ["C03", "C04", "C12", "C16", "C05"], "quick",
     "vacuity witness: same pre-state and move assumptions as the step harnesses, ends in assert!(false); must FAIL",
